@@ -170,19 +170,8 @@ func (s *simWorld) replicate() {
 		if n.Chan == nil || !n.Up {
 			continue
 		}
-		src := s.w.Nodes[n.Chan.Source]
-		reachable := src != nil && src.Up && !s.cut[h] && !s.cut[n.Chan.Source]
-		// the IO thread of a replica whose source is unreachable is "Connecting" (not running, errno 2003) and reconnects by itself
-		if !reachable && n.Chan.IO {
-			n.Chan.IO, n.Chan.IOErrno = false, 2003
-			s.ioDown[n.Chan] = true
-		} else if reachable && s.ioDown[n.Chan] && !n.Chan.IO {
-			n.Chan.IO, n.Chan.IOErrno = true, 0
-			delete(s.ioDown, n.Chan)
-		}
-		if reachable {
-			s.w.ReplicateLocked(n)
-		}
+		// an unreachable source leaves the receiver thread "Connecting" (the fake shows it so and lets it reconnect by itself)
+		s.w.ReplicateLocked(n)
 	}
 }
 
